@@ -31,8 +31,11 @@ class DimensionRenamer(Transformer):
         self.sample_dims_before = sample_dims
         self.feature_dims_before = feature_dims
 
+        # Sample dimensions are shared by all items of a list input: number them first, in
+        # the order given by the user, so that they get the same names for every item
+        ordered_dims = list(sample_dims) + [d for d in X.dims if d not in sample_dims]
         self.dim_mapping = {
-            dim: f"{self.base}{i}" for i, dim in enumerate(X.dims, start=self.start)
+            dim: f"{self.base}{i}" for i, dim in enumerate(ordered_dims, start=self.start)
         }
 
         self.sample_dims_after: Dims = tuple(
